@@ -9,6 +9,11 @@ package main
 // calls the real function and checks the property's clause in Go; a failing test = violation reproduced.
 
 import (
+	"go/types"
+	"sort"
+
+	"golang.org/x/tools/go/ssa"
+
 	"bytes"
 	"context"
 	"encoding/json"
@@ -219,4 +224,97 @@ func cmdReplay(args []string) int {
 	return 0
 }
 
-func (e *Engine) extraChecks(pid string, kf *KnownFindings, only string) []*FnReport { return nil }
+// extraChecks: the guarded-by sweep.  Every function of the module that touches a field declared guarded_by (in a type
+// spec tagged with this property) and has no contract of its own for the property is verified with an empty contract;
+// only its lock-discipline obligations count.  So a new, unannotated accessor is checked, not missed.
+func (e *Engine) extraChecks(pid string, kf *KnownFindings, only string) []*FnReport {
+	guarded := map[string]map[string]bool{} // type key -> field names
+	for _, ts := range e.specs.Types {
+		if !hasProp(ts.Props, pid) {
+			continue
+		}
+		t := e.resolveType(ts.Pkg, ts.Name)
+		if t == nil {
+			continue
+		}
+		fs := map[string]bool{}
+		for _, fields := range ts.Guarded {
+			for _, f := range fields {
+				if !strings.Contains(f, ".") {
+					fs[f] = true
+				}
+			}
+		}
+		guarded[typeKey(t)] = fs
+	}
+	if len(guarded) == 0 {
+		return nil
+	}
+	var out []*FnReport
+	var keys []string
+	for k := range e.funcByKey {
+		keys = append(keys, k)
+	}
+	sort.Strings(keys)
+	for _, k := range keys {
+		fn := e.funcByKey[k]
+		if fn.Parent() != nil || len(fn.Blocks) == 0 || fn.Synthetic != "" {
+			continue // closures are checked where the module calls them (inlined into their callers)
+		}
+		if only != "" && !strings.Contains(k, only) {
+			continue
+		}
+		if sp := e.specs.Funcs[k]; sp != nil && hasProp(sp.Props, pid) {
+			continue
+		}
+		if !touchesGuarded(fn, guarded) {
+			continue
+		}
+		spec := &FuncSpec{Pkg: e.funcPkgPath(fn), Key: funcKey(fn), Props: []string{pid}, Loops: map[int]*LoopSpec{}, Asserts: map[string][]Clause{}, Options: map[string]string{"sweep": "guard"}}
+		if sp := e.specs.Funcs[k]; sp != nil {
+			// reuse loop annotations and preconditions of an existing contract for another property
+			c2 := *sp
+			c2.Props = []string{pid}
+			c2.Options = map[string]string{"sweep": "guard"}
+			for kk, vv := range sp.Options {
+				c2.Options[kk] = vv
+			}
+			spec = &c2
+		}
+		rep := e.VerifyFunc(spec, "SEQ", kf)
+		var keep []*Obligation
+		for _, o := range rep.Obs {
+			if o.Kind == "guard" || o.Kind == "lock" {
+				keep = append(keep, o)
+			}
+		}
+		rep.Obs = keep
+		out = append(out, rep)
+	}
+	return out
+}
+
+func touchesGuarded(fn *ssa.Function, guarded map[string]map[string]bool) bool {
+	var visit func(f *ssa.Function) bool
+	visit = func(f *ssa.Function) bool {
+		for _, b := range f.Blocks {
+			for _, ins := range b.Instrs {
+				if fa, ok := ins.(*ssa.FieldAddr); ok {
+					pt := fa.X.Type().Underlying().(*types.Pointer).Elem()
+					if fs, ok := guarded[typeKey(pt)]; ok {
+						if fs[pt.Underlying().(*types.Struct).Field(fa.Field).Name()] {
+							return true
+						}
+					}
+				}
+			}
+		}
+		for _, an := range f.AnonFuncs {
+			if visit(an) {
+				return true
+			}
+		}
+		return false
+	}
+	return visit(fn)
+}
